@@ -4,7 +4,7 @@
 (* end-of-input marker, the line-break rule and LC(s,k), the <<line,       *)
 (* column>> that a fresh forward scan reports after consuming k slots.     *)
 (***************************************************************************)
-EXTENDS Integers, Sequences
+EXTENDS Integers, Sequences, SeqFold
 
 EOFCH == -1
 LF    == 10
@@ -19,15 +19,14 @@ IsLine(b, c, a) == (c = LF \/ c = CR) /\ ~(c = CR /\ (b = LF \/ a = LF))
 IsCol(c) == c # LF /\ c # CR
 
 \* <<line, column>> after consuming k slots in a forward scan.
-RECURSIVE LC(_, _)
+\* (a left fold over the consumed characters, which TLC evaluates iteratively: contents of any length;
+\* the end-of-input slot changes nothing)
 LC(s, k) ==
-  IF k = 0 THEN <<1, 0>>
-  ELSE LET p == LC(s, k - 1)
-           c == CharAt(s, k)
-       IN IF k > Len(s) THEN p          \* the end-of-input slot changes nothing
-          ELSE LET q == IF IsLine(CharAt(s, k-1), c, CharAt(s, k+1))
-                        THEN <<p[1] + 1, 0>> ELSE p
-               IN IF IsCol(c) THEN <<q[1], q[2] + 1>> ELSE q
+  LET n == IF k > Len(s) THEN Len(s) ELSE k
+      step(p, i) == LET c == s[i]
+                        q == IF IsLine(CharAt(s, i - 1), c, CharAt(s, i + 1)) THEN <<p[1] + 1, 0>> ELSE p
+                    IN IF IsCol(c) THEN <<q[1], q[2] + 1>> ELSE q
+  IN FoldL(step, <<1, 0>>, [i \in 1 .. n |-> i])
 
 Min(a, b) == IF a < b THEN a ELSE b
 Max(a, b) == IF a > b THEN a ELSE b
